@@ -51,7 +51,7 @@ func ruleGoError(w *World, r *RuleResult) {
 		if a, ok := bo.X.(*ssa.BinOp); ok && a.Op == token.AND {
 			and = a
 		}
-		if k, ok := bo.Y.(*ssa.Const); !ok || and == nil || k.Int64() != 0 {
+		if k, ok := bo.Y.(*ssa.Const); !ok || and == nil || ci(k) != 0 {
 			return ""
 		}
 		isR := func(v ssa.Value) bool { p, ok := v.(*ssa.Parameter); return ok && p == f.Params[0] }
@@ -125,7 +125,7 @@ func ruleGoError(w *World, r *RuleResult) {
 			zero := false
 			for _, d := range p.Decisions {
 				if bo, ok := d.Cond.(*ssa.BinOp); ok && bo.X == ssa.Value(flagsP) {
-					if k, ok := bo.Y.(*ssa.Const); ok && k.Int64() == 0 && ((bo.Op == token.EQL && d.Val) || (bo.Op == token.NEQ && !d.Val)) {
+					if k, ok := bo.Y.(*ssa.Const); ok && ci(k) == 0 && ((bo.Op == token.EQL && d.Val) || (bo.Op == token.NEQ && !d.Val)) {
 						zero = true
 					}
 				}
